@@ -347,6 +347,7 @@ bool valid_utf8(const std::string& s) {
 namespace {
 struct P {
     const uint8_t* p; size_t n; size_t i = 0; bool lenient; bool unknown = false; size_t depth = 0;
+    int longnum = 0;   // number runs longer than 63 characters: 0 = no obligation (sets unknown), 1 = the first 63 characters are the token, 2 = the whole run is the token
     bool at(size_t k) const { return i + k < n; }
     uint8_t c(size_t k = 0) const { return p[i + k]; }
     void ws() {
@@ -426,7 +427,7 @@ bool p_number(P& s, RV* out) {
     }
     // lenient: longest prefix of the maximal run of number characters that strtod would take
     size_t run = st; while (run < s.n && (isdig(s.p[run]) || s.p[run] == '+' || s.p[run] == '-' || s.p[run] == 'e' || s.p[run] == 'E' || s.p[run] == '.')) run++;
-    if (run - st > 63) { s.unknown = true; run = st + 63; }
+    if (run - st > 63) { if (s.longnum == 0) s.unknown = true; if (s.longnum != 2) run = st + 63; }
     size_t j = st; if (j < run && s.p[j] == '-') j++;
     size_t d1 = 0; while (j < run && isdig(s.p[j])) { j++; d1++; }
     size_t d2 = 0;
@@ -496,12 +497,12 @@ bool S_buffer(const uint8_t* p, size_t n, RV& out, bool* has_nul) {
     if (n > 0 && p[n - 1] == 0) { n--; if (has_nul) *has_nul = true; }
     return S_parse(p, n, out);
 }
-Verdict L_buffer(const uint8_t* p, size_t n, bool require_nul) {
+static Verdict L_buffer_mode(const uint8_t* p, size_t n, bool require_nul, int longnum) {
     // the BOM may or may not be skipped by a conforming implementation: accept if either reading is in L
     for (int bom = 0; bom < 2; bom++) {
         const uint8_t* q = p; size_t m = n;
         if (bom) { if (n >= 3 && p[0] == 0xEF && p[1] == 0xBB && p[2] == 0xBF) { q += 3; m -= 3; } else break; }
-        P s{q, m}; s.lenient = true;
+        P s{q, m}; s.lenient = true; s.longnum = longnum;
         s.ws();
         if (!p_value(s, nullptr)) { if (s.unknown) return UNKNOWN; continue; }
         if (s.unknown) return UNKNOWN;
@@ -511,6 +512,14 @@ Verdict L_buffer(const uint8_t* p, size_t n, bool require_nul) {
         if (ok) return ACCEPT;
     }
     return REJECT;
+}
+Verdict L_buffer(const uint8_t* p, size_t n, bool require_nul) {
+    Verdict v = L_buffer_mode(p, n, require_nul, 0);
+    if (v != UNKNOWN) return v;
+    // a number run longer than 63 characters: the library may stop after 63 characters (what it does today) or read the whole token; a text
+    // that is outside the dialect under both readings still has to be rejected
+    if (L_buffer_mode(p, n, require_nul, 1) == REJECT && L_buffer_mode(p, n, require_nul, 2) == REJECT) return REJECT;
+    return UNKNOWN;
 }
 
 bool RV_parse_lenient(const std::string& text, RV& out) {
@@ -689,6 +698,19 @@ cJSON* build_tree_cs(const RV& v) {
     switch (v.k) {
         case RV::Arr: { cJSON* a = LIB(cJSON_CreateArray()); for (auto& e : v.arr) { cJSON* c = build_tree_cs(e); LIBV(cJSON_AddItemToArray(a, c)); } return a; }
         case RV::Obj: { cJSON* o = LIB(cJSON_CreateObject()); for (auto& e : v.obj) { cJSON* c = build_tree_cs(e.second); LIBV(cJSON_AddItemToObjectCS(o, e.first.c_str(), c)); } return o; }
+        default: return build_tree(v);
+    }
+}
+
+// array elements that keep a member name from an earlier life as object member (AddItemToObject, DetachItemViaPointer, AddItemToArray):
+// the name is an index token of another position or a key that is common in the documents, so code that trusts it goes visibly wrong
+void give_stale_name(cJSON* item, const char* name) {
+    cJSON* tmp = LIB(cJSON_CreateObject()); LIBV(cJSON_AddItemToObject(tmp, name, item)); LIB(cJSON_DetachItemViaPointer(tmp, item)); LIBV(cJSON_Delete(tmp));
+}
+cJSON* build_tree_named(const RV& v) {
+    switch (v.k) {
+        case RV::Arr: { cJSON* a = LIB(cJSON_CreateArray()); size_t i = 0, n = v.arr.size(); for (auto& e : v.arr) { cJSON* c = build_tree_named(e); give_stale_name(c, i % 3 == 2 ? "a" : std::to_string((i + 1) % (n + 1)).c_str()); LIBV(cJSON_AddItemToArray(a, c)); i++; } return a; }
+        case RV::Obj: { cJSON* o = LIB(cJSON_CreateObject()); for (auto& e : v.obj) { cJSON* c = build_tree_named(e.second); LIBV(cJSON_AddItemToObject(o, e.first.c_str(), c)); } return o; }
         default: return build_tree(v);
     }
 }
